@@ -23,8 +23,11 @@ import (
 //
 //   sched <ops separated by ;>
 //     w:<k>        write version k of the program file (same declarations, different text)
+//     rm           remove the program file (the next load/reload unloads the program)
 //     load         LoadAllPrograms, awaited
 //     l:<n>        send the line "<n>" to the loader (returns when the fan-out has taken it)
+//     lq:<n>       like l:<n>, but only if no background reload is still pending
+//     join         wait (at most 300 ms each) for the background reloads
 //     hold:<n>     the VM that starts line <n> stops at the start of ProcessLogLine until released
 //     rel:<n>      release line <n>
 //     reload       LoadAllPrograms in the background; observed after 150 ms as returned / blocked
@@ -105,6 +108,8 @@ func c20Run(r *runCtx, id string, f []string) {
 	e.rt = rt
 	var obs []string
 	lastSent := ""
+	fileThere, loaded := false, false
+	_ = fileThere
 	ctx := context.Background()
 	stuck := false
 	for _, op := range strings.Split(f[1], ";") {
@@ -113,8 +118,13 @@ func c20Run(r *runCtx, id string, f []string) {
 		case "w":
 			k, _ := strconv.Atoi(kv[1])
 			_ = os.WriteFile(filepath.Join(dir, "p.mtail"), []byte(c20Prog(k)), 0o644)
+			fileThere = true
+		case "rm":
+			_ = os.Remove(filepath.Join(dir, "p.mtail"))
+			fileThere = false
 		case "load":
 			_ = rt.LoadAllPrograms()
+			loaded = fileThere
 		case "hold":
 			e.mu.Lock()
 			e.holds[kv[1]] = make(chan struct{})
@@ -128,13 +138,36 @@ func c20Run(r *runCtx, id string, f []string) {
 			if h != nil {
 				close(h)
 			}
-		case "l":
+		case "join":
+			for _, ch := range e.bg {
+				select {
+				case <-ch:
+				case <-time.After(300 * time.Millisecond):
+				}
+			}
+		case "l", "lq":
+			if kv[0] == "lq" {
+				// only when no background reload is still pending
+				pending := false
+				for _, ch := range e.bg {
+					select {
+					case <-ch:
+					default:
+						pending = true
+					}
+				}
+				if pending {
+					continue
+				}
+			}
 			done := make(chan struct{})
 			go func() { e.lines <- logline.New(ctx, "log", kv[1]); close(done) }()
 			select {
 			case <-done:
-				e.sent++
-				lastSent = kv[1]
+				if loaded {
+					e.sent++
+					lastSent = kv[1]
+				}
 			case <-time.After(3 * time.Second):
 				obs = append(obs, "send-blocked:"+kv[1])
 				stuck = true
@@ -154,6 +187,7 @@ func c20Run(r *runCtx, id string, f []string) {
 			ch := make(chan struct{})
 			e.bg = append(e.bg, ch)
 			go func() { _ = rt.LoadAllPrograms(); close(ch) }()
+			loaded = fileThere
 			select {
 			case <-ch:
 				obs = append(obs, "reload=returned")
@@ -248,6 +282,9 @@ func init() {
 			g.emit("sched", "w:1;load;l:1;sync;hold:2;l:2;w:2;reload;l:3;wait:2;rel:2;sync")
 			g.emit("sched", "w:1;load;hold:1;l:1;w:2;reload;rel:1;l:2;sync")
 			g.emit("sched", "w:1;load;l:1;sync;hold:2;l:2;w:2;reload;rel:2;l:3;l:4;sync;hold:5;l:5;w:3;reload;l:6;wait:5;rel:5;sync")
+			// unload while the VM is inside a line, then add the program again
+			g.emit("sched", "w:1;load;l:1;sync;hold:2;l:2;rm;reload;w:2;reload;join;lq:3;wait:2;rel:2;sync")
+			g.emit("sched", "w:1;load;l:1;sync;rm;load;l:2;w:2;load;l:3;sync")
 			// identical content: no swap
 			g.emit("sched", "w:1;load;l:1;hold:2;l:2;reload;rel:2;l:3;sync")
 			n := 12
